@@ -42,6 +42,12 @@ R15g attribution: a state recorded for a command request or command instance goe
 R15h "latest invocation" means the instance created last: RuntimeRecord.last_instance_id looks for the most recent Created state
      before it falls back to the last state - the command of an earlier invocation can still add Completed/Cancelled after the
      next invocation was created, and a request issued under that old id never executes (its invocation has concluded).
+R15i a state is final for its invocation only: the command visitors (visit_UodCommandNode / visit_EngineCommandNode) issue their request
+     under `record.last_instance_id`, read one tick after visit() created the id - so two walkers of one macro body (main program and
+     a Watch calling the same macro a tick apart) issue two requests under ONE id. As long as that is so, the branch of
+     _cancel_command that retires a request which has not started a command may record Cancelled only when no other executing
+     request carries the same id: the other request executes the invocation, and its Started after the Cancelled makes
+     get_runlog() raise for the rest of the run.
 Decides these clauses; does not decide producibility for every runtime state order beyond R15f (the raise sites in
 _get_record_runlog_items depend on runtime data), nor monotonicity of the engine clock itself.
 """
@@ -909,6 +915,49 @@ def run(ctx) -> None:
             ctx.fail("R15f", fn, c, inst, f"`{norm(c)}` cancels without finalizing ({' '.join(ff)}): the request stays in the executing list, "
                      f"and in the next tick {k.short} finalizes the cancelled command and then reaches `{m2.text()[:50]}` - Cancelled followed "
                      "by a second conclusive state, after which get_runlog() raises for the rest of the run", pth)
+    _r15i(ctx, prog, cancel)
+
+
+def _r15i(ctx, prog, cancel):
+    ctx.rule("R15i", "Cancelled for an unstarted request only when no other request executes the same invocation")
+    pi = prog.cls("openpectus.lang.exec.pinterpreter:PInterpreter")
+    shared = []
+    for vn in ("visit_UodCommandNode", "visit_EngineCommandNode"):
+        vf = pi.methods.get(vn)
+        if vf is None:
+            raise AnchorError(f"PInterpreter.{vn} missing")
+        for c in walk_no_nested(vf.node):
+            if isinstance(c, ast.Call) and call_attr(c) == "schedule_execution":
+                idv = next((k.value for k in c.keywords if k.arg == "instance_id"), None)
+                if isinstance(idv, ast.Name):
+                    idv = local_single_defs(vf).get(idv.id, idv)
+                if idv is not None and "last_instance_id" in norm(idv):
+                    shared.append(vn)
+    inst = "_cancel_command: retiring an unstarted request records Cancelled only if no other executing request has its instance id"
+    if not shared:
+        ctx.ok("R15i", inst + " (requests carry the id of their own visit: ids are not shared)", trivial=True)
+        return
+    g = cfg_of(cancel)
+    rpar = cancel.node.args.args[1].arg
+    marks = [n for n in g.nodes if n.ast is not None and any(call_attr(c) == "mark_cancelled" for c in n.calls())]
+    # the retire branch: marks not dominated by a cancel() of the command instance
+    cn = [n for n in g.nodes if n.ast is not None and any(call_attr(c) == "cancel" and not c.args for c in n.calls())]
+    retire_marks = [m for m in marks if not any(g.dominates(c, m) for c in cn)]
+    if not retire_marks:
+        ctx.ok("R15i", inst + " (the retire branch records no state)", trivial=True)
+        return
+    bad = None
+    for m in retire_marks:
+        conds = [norm(e) for e, pol in g.conditions_at(m)] + [norm(local_single_defs(cancel).get(norm(e), e)) for e, pol in g.conditions_at(m)]
+        if not any("instance_id" in c and rpar in c and ("cmd_executing" in c or "currently_executing" in c) for c in conds):
+            bad = m
+    if bad is None:
+        ctx.ok("R15i", inst, {"rule": "R15i", "ids_shared_by": shared})
+    else:
+        ctx.fail("R15i", cancel, bad.ast, inst, f"{', '.join(shared)} issue requests under record.last_instance_id, so `Macro: M / LongC`, "
+                 "`Watch: Run Time > 0.8s / Call macro: M`, `Wait: 0.3s`, `Call macro: M` queues two LongC requests with one id in one tick; "
+                 "the same-name rule retires the first as Cancelled and the second then records Started under that id - Cancelled followed "
+                 "by Started, and get_runlog() raises for the rest of the run (the run-stopped message cannot be built)")
 
 
 def _mentions(expr: ast.AST, name: str) -> bool:
